@@ -759,3 +759,30 @@ func CFFDictOperators(img []byte) (offs []int) {
 	}
 	return offs
 }
+
+// BitmapIndexSubtables returns the file offsets of the index subtable headers (indexFormat,
+// imageFormat, imageDataOffset, then the format's own data) of the EBLC/CBLC/bloc table.
+func BitmapIndexSubtables(img []byte) (offs []int) {
+	kind, tabs := ParseDirectory(img)
+	if kind != KindSfnt {
+		return nil
+	}
+	for _, t := range tabs {
+		if (t.Tag != "EBLC" && t.Tag != "CBLC" && t.Tag != "bloc") || t.Length < 8 || t.Offset+t.Length > len(img) {
+			continue
+		}
+		tb := img[t.Offset : t.Offset+t.Length]
+		ns := int(binary.BigEndian.Uint32(tb[4:]))
+		for s := 0; s < ns && 8+48*s+48 <= len(tb); s++ {
+			rec := tb[8+48*s:]
+			arr, nsub := int(binary.BigEndian.Uint32(rec[0:])), int(binary.BigEndian.Uint32(rec[8:]))
+			for k := 0; k < nsub && k < 4096 && arr+8*k+8 <= len(tb); k++ {
+				add := int(binary.BigEndian.Uint32(tb[arr+8*k+4:]))
+				if h := arr + add; h+16 <= len(tb) {
+					offs = append(offs, t.Offset+h)
+				}
+			}
+		}
+	}
+	return offs
+}
